@@ -2,6 +2,7 @@ package main
 
 import (
 	"fmt"
+	"os"
 	"strings"
 	"time"
 )
@@ -154,6 +155,9 @@ func firstLine(s string) string {
 func goField(r result) string {
 	if r.status == "ok" {
 		return r.out
+	}
+	if os.Getenv("GFH_DEBUG") != "" {
+		fmt.Fprintln(os.Stderr, "status:", r.status)
 	}
 	return "!" + statusClass(r.status)
 }
